@@ -255,6 +255,10 @@ def c02(run, replay=None):
         c = dict(files={"main.rh": dict(tasks=ts)}, rash_args=["-e", "%s=%s" % (k, v)], env=({k: pre} if pre is not None else {}), desc=dict(env=k))
         c["files"]["main.rh"]["tasks"][1]["mod"] = ('command', 'kenv', '', 0)
         envcases.append((k, v, c))
+    # the same key twice: the last -e wins (EnvModel.env_override)
+    ts2 = [task(('debug', lit("<<env>> ") + [('v', ['env', 'VP_TWICE'])]))]
+    envcases.append(("VP_TWICE", "second", dict(files={"main.rh": dict(tasks=ts2)}, rash_args=["-e", "VP_TWICE=first", "-e", "VP_TWICE=second"],
+                                                env={"VP_TWICE": "inherited"}, desc=dict(env="VP_TWICE twice"))))
     outs = E.run_impls([c for _, _, c in envcases])
     for (k, v, c), o in zip(envcases, outs):
         if o["rc"] != 0 or ("<<env>> %s\n" % v) not in o["stdout"]:
